@@ -17,7 +17,10 @@ def isField (m : String) : Bool := m.startsWith "f" || m.startsWith "F"
 
 /-- the declarations `wsutil::render` writes for a file spec, in file order.  Flag `n`: the file has
     no class header — a comment and the constant `cLonely` take its place, the parent is not written;
-    everything below the header (uses list, types, fields, unknown types, methods, bodies) is as in a class file. -/
+    everything below the header (uses list, types, fields, unknown types, methods, bodies) is as in a class file.
+    Flag `e`: an empty file (header-less, no declarations at all).  Flag `d`: the header is `module <stem>` (no parent).
+    A uses list may name entities that have no file (`findDecl` finds nothing).  The flags `b c a l m r` (what stands
+    above the header, how the file is encoded) change no declaration. -/
 def parseFile (s : String) : Option (ClassDecl String) :=
   match s.splitOn ":" with
   | stem :: par :: rest =>
@@ -25,17 +28,21 @@ def parseFile (s : String) : Option (ClassDecl String) :=
     let members := parseList (rest.headD "-")
     let uses := parseList ((rest.drop 1).headD "-")
     let flags := ((rest.drop 2).headD "").toList
-    let n := flags.contains 'n'
-    let x := flags.contains 'x'
-    let u := flags.contains 'u'
+    let e := flags.contains 'e'       -- an empty file (nothing, or blank lines / comments only): declares nothing, uses nothing
+    let n := flags.contains 'n' || e
+    let x := flags.contains 'x' && !e
+    let u := flags.contains 'u' && !e
+    let modul := flags.contains 'd'   -- `module <stem>`: a header that cannot name a parent
+    let members := if e then [] else members
+    let uses := if e then [] else uses
     let fields := members.filter isField
     let procs := members.filter (fun m => !isField m)
     let decls : List (Decl String) :=
-      (if n then [.plain "cLonely"] else []) ++
+      (if n && !e then [.plain "cLonely"] else []) ++
       (if x then [.plain s!"t{stem}Rec"] else []) ++ fields.map .plain ++
       (if u then [.viaUses "fUnknown", .plain "fUnknownRef"] else []) ++ procs.map .plain ++
       (if x then [.plain s!"Work{stem}"] else [])
-    some { name := stem, parent := if par == "-" || n then none else some par, decls := decls, uses := uses,
+    some { name := stem, parent := if par == "-" || n || modul then none else some par, decls := decls, uses := uses,
            body := x, members := fields ++ procs, header := !n }
   | _ => none
 
